@@ -107,11 +107,13 @@ LabelsC09(e) ==
     \cup L(e.eb # e.bits, "C09.exponent_width_differs_from_base")
     \cup L(Mod(e.b, e.m) = Zero, "C09.base_zero")
     \cup L(e.bits - BitLen(e.m) = 1, "C09.modulus_one_leading_zero")
+    \cup L(e.k = "ok" /\ e.rt = Zero /\ Mod(e.b, e.m) # Zero /\ e.m # One, "C09.power_of_nonzero_base_is_zero")
   ELSE IF e.op = "lincomb" THEN
     LET lz == e.bits - BitLen(e.m) IN
     L(lz >= 1 /\ lz < 6 /\ Len(e.xs) > 2 ^ lz, "C09.more_terms_than_one_window")
     \cup L(lz >= 1 /\ lz < 6 /\ Len(e.xs) = 2 ^ lz, "C09.terms_fill_one_window_exactly")
     \cup L(Len(e.xs) = 1, "C09.single_term")
+    \cup L(e.k = "ok" /\ e.rt = Zero /\ e.m # One /\ (\E i \in 1..Len(e.xs) : e.xs[i] # Zero /\ e.ys[i] # Zero), "C09.sum_of_nonzero_products_is_zero")
   ELSE IF e.op = "mexp" THEN
     L(Len(e.bs) >= 2 /\ e.kk % 4 # 0, "C09.multi_exp_partial_top_window")
   ELSE {}
